@@ -74,20 +74,36 @@ def _parse_env(R):
 
 
 def _bits(e, names):
-    """Return (source name, shift, mask) for  (name >> s) & m  /  name >> s  /  name & m."""
-    sh, mk = 0, None
-    if isinstance(e, ast.BinOp) and isinstance(e.op, ast.BitAnd):
-        l, r = e.left, e.right
-        if isinstance(l, ast.Constant):
-            l, r = r, l
-        if isinstance(r, ast.Constant):
-            mk = r.value
-            e = l
-    if isinstance(e, ast.BinOp) and isinstance(e.op, ast.RShift) and isinstance(e.right, ast.Constant):
-        sh = e.right.value
-        e = e.left
-    if isinstance(e, ast.Name) and e.id in names:
-        return (e.id, sh, mk)
+    """Return (source name, shift, effective mask) when expression e computes the bit-field (name >> shift) & mask of
+    one header byte.  Decided semantically: e (constants, arithmetic/bit operators, bool()/int(), comparisons) is
+    evaluated for all 256 values of the byte and compared with every contiguous field, so `b >> 7`, `(b & 0x80) >> 7`,
+    `b // 128`, `b % 128`, `b & 0x7f` ... are all recognised.  A boolean-valued e matches one-bit fields."""
+    used = set()
+    for x in ast.walk(e):
+        if isinstance(x, ast.Name):
+            if x.id in ('bool', 'int'):
+                continue
+            if x.id not in names:
+                return None
+            used.add(x.id)
+        elif not isinstance(x, (ast.BinOp, ast.UnaryOp, ast.Constant, ast.Compare, ast.BoolOp, ast.IfExp, ast.Call, ast.operator,
+                                ast.unaryop, ast.cmpop, ast.boolop, ast.expr_context)):
+            return None
+        if isinstance(x, ast.Call) and not (isinstance(x.func, ast.Name) and x.func.id in ('bool', 'int') and not x.keywords):
+            return None
+    if len(used) != 1:
+        return None
+    name = next(iter(used))
+    try:
+        code = compile(ast.fix_missing_locations(ast.Expression(body=__import__('copy').deepcopy(e))), '<bits>', 'eval')
+        table = [eval(code, {'__builtins__': {}, 'bool': bool, 'int': int}, {name: v}) for v in range(256)]
+    except Exception:
+        return None
+    for sh in range(8):
+        for w in range(1, 9 - sh):
+            mk = (1 << w) - 1
+            if all(table[v] == ((v >> sh) & mk) for v in range(256)):
+                return (name, sh, mk)
     return None
 
 
@@ -125,8 +141,7 @@ def wire(R, RID='C04.wire'):
             bits = _bits(o, {b1, b2})
             detail += ' = %s' % U(o)
             if bits is not None:
-                s2, sh2, mk2 = bits
-                eff = mk2 if mk2 is not None else (0xff >> sh2)
+                s2, sh2, eff = bits
                 ok = s2 == src and sh2 == sh and eff == width and rd.defs_at(on, s2) == {hdr}
         R.ob(RID, 'frame.%s is wire bit-field' % field, ok, detail, func=f, node=cons.ast,
              construct='header field %s: %s' % (field, detail))
